@@ -15,6 +15,7 @@ import DateutilVerif.Proofs.RRuleHourlyBy
 import DateutilVerif.Proofs.RRuleSecondly
 import DateutilVerif.Proofs.RRuleMinutelyBy
 import DateutilVerif.Proofs.RRuleDailyW
+import DateutilVerif.Proofs.RRuleMonthlyW
 
 namespace RRule
 open Cal
@@ -83,6 +84,11 @@ theorem iter_eq_spec_supported (a : Args) (r : Rule) (h : construct a = .ok r) (
     obtain ⟨wl, hwl, hne, hok⟩ := someWith_elim h4
     exact ⟨n, by omega, by simp [Family.periodsPerTurn],
       iter_eq_spec_yearly_weekno ⟨hf, hi, hv, h3, hz, h1, h2, ⟨wl, hwl, hne, ⟨hok.1, hok.2⟩⟩⟩ h n hr⟩
+  | monthlyWeekno =>
+    obtain ⟨hf, ⟨hi, hv, hz⟩, h1, h2, h3, h4⟩ := hs
+    obtain ⟨wl, hwl, hne, hok⟩ := someWith_elim h4
+    exact ⟨n, by omega, by simp [Family.periodsPerTurn],
+      iter_eq_spec_monthly_weekno ⟨hf, hi, hv, h3, hz, h1, h2, ⟨wl, hwl, hne, ⟨hok.1, hok.2⟩⟩⟩ h n hr⟩
   | hourly =>
     obtain ⟨hf, ⟨hi, hv, hz⟩, h1, h2, h3, h4, h5⟩ := hs
     exact iter_eq_spec_hourly ⟨hf, hi, hv, wArgOk_elim h1, h2, hz, h3, h4, h5⟩ h n hr
